@@ -149,8 +149,12 @@ func c03HasGap(img *crashfs.Image) bool {
 	return len(segs) > 0 && segs[len(segs)-1]-segs[0]+1 != len(segs)
 }
 
-// c03RepairCause inspects the Remove calls the repair issued: a removed segment
-// at or before the one in which the valid part ends is wrong.
+// c03RepairCause recognises the exact pattern of the known CloseAndRepair defect
+// in the calls the repair issued: the valid part was measured correctly (a
+// Truncate, if any, cuts the right segment to the right size), segments behind
+// the one in which the valid part ends exist, and the only file removed is that
+// very segment (fileFor(id, idx)) - the later ones (fileFor(id, i)) are left.
+// Any other wrong removal is reported as a different cause.
 func c03RepairCause(img *crashfs.Image, ops []crashfs.Op) string {
 	segs := c03Segments(img.Files)
 	var all []byte
@@ -158,29 +162,49 @@ func c03RepairCause(img *crashfs.Image, ops []crashfs.Op) string {
 		all = append(all, img.Files[c03SegPath(s)]...)
 	}
 	_, valid, _ := c03Scan(all)
-	loopIdx, cum := -1, 0
+	loopIdx, cum, before := -1, 0, 0
 	for _, s := range segs {
+		before = cum
 		cum += len(img.Files[c03SegPath(s)])
 		if valid <= cum {
 			loopIdx = s
 			break
 		}
 	}
-	cause := ""
+	if loopIdx < 0 {
+		return ""
+	}
+	later := segs[len(segs)-1] > loopIdx
+	removedKept, removedEarlier, removedLater, truncOK := 0, 0, 0, true
 	for _, o := range ops {
-		if o.Kind != crashfs.OpRemove || !strings.HasPrefix(o.Path, c03FilePrefix) {
+		if !strings.HasPrefix(o.Path, c03FilePrefix) {
 			continue
 		}
 		var ri int
 		fmt.Sscanf(o.Path[len(c03FilePrefix):], "%d", &ri)
-		if ri == loopIdx {
-			return "CloseAndRepair-removes-fileFor(id,idx)-instead-of-fileFor(id,i)"
-		}
-		if ri < loopIdx {
-			cause = "CloseAndRepair-removes-segment-before-the-damage"
+		switch o.Kind {
+		case crashfs.OpRemove:
+			switch {
+			case ri == loopIdx:
+				removedKept++
+			case ri < loopIdx:
+				removedEarlier++
+			default:
+				removedLater++
+			}
+		case crashfs.OpTruncate:
+			if ri != loopIdx || int(o.Size) != valid-before {
+				truncOK = false
+			}
 		}
 	}
-	return cause
+	switch {
+	case removedKept == 1 && removedEarlier == 0 && removedLater == 0 && later && truncOK:
+		return "CloseAndRepair-removes-fileFor(id,idx)-instead-of-fileFor(id,i)"
+	case removedKept+removedEarlier > 0:
+		return "CloseAndRepair-removes-a-segment-that-holds-valid-records"
+	}
+	return ""
 }
 
 // cycle: a fresh instance from img; recover; (if repaired: look again, nothing
